@@ -127,7 +127,7 @@ theorem put_new_rep (hc : LawfulCmp cmp) (r : Rep cmp a d ix) {key : Bytes} (hk 
     (hpn : pn2.length = tMaxHeight) (I : Inserted cmp a d ix key v h nd') :
     Rep cmp { kvData := a.kvData ++ key.toArray ++ v.toArray, nodeData := nd', prevNode := pn2,
               maxHeight := if h > a.maxHeight then h else a.maxHeight, n := a.n + 1,
-              kvSize := a.kvSize + (key.length + v.length) }
+              kvSize := a.kvSize + (key.length + v.length), gen := a.gen }
       (putNew cmp d key v h) (fun k => if k = key then a.nodeData.size else ix k) := by
   have e4 := nNext_eq
   have e2 := nVal_eq
@@ -261,7 +261,10 @@ theorem put_new_rep (hc : LawfulCmp cmp) (r : Rep cmp a d ix) {key : Bytes} (hk 
 /-- `Put` of a key that is not present -/
 theorem put_new_sim (hc : LawfulCmp cmp) (r : Rep cmp a d ix) {key : Bytes} (hk : key ∉ d.level0) (v : Bytes)
     {h : Nat} (h1 : 1 ≤ h) (h2 : h ≤ tMaxHeight) :
-    ∃ a' ix', put cmp a key v h = some a' ∧ Rep cmp a' (MemDB.put cmp d key v h) ix' := by
+    ∃ a', put cmp a key v h = some a' ∧
+      Rep cmp a' (MemDB.put cmp d key v h) (fun k => if k = key then a.nodeData.size else ix k) ∧
+      a'.gen = a.gen ∧ a'.kvData = a.kvData ++ key.toArray ++ v.toArray ∧
+      Inserted cmp a d ix key v h a'.nodeData := by
   obtain ⟨pn', g1, glen, _, g4⟩ := findGE_sim r key true
   obtain ⟨he, _⟩ := findGE_exact hc r key true
   have hex : (MemDB.findGE cmp d key true).exact = false := by rw [he]; simpa using hk
@@ -272,7 +275,10 @@ theorem put_new_sim (hc : LawfulCmp cmp) (r : Rep cmp a d ix) {key : Bytes} (hk 
     rw [MemDB.findGE_prev hc r.inv key] at this
     exact this
   obtain ⟨nd', pn2, e, hpn, I⟩ := putInsert_arrays r key v h1 h2 pn' (by rw [glen, r.pn]) hpath
-  refine ⟨_, _, ?_, by rw [MemDB.put_new hc r.inv hk]; exact put_new_rep hc r hk v h1 h2 pn2 hpn I⟩
+  refine ⟨{ kvData := a.kvData ++ key.toArray ++ v.toArray, nodeData := nd', prevNode := pn2,
+            maxHeight := if h > a.maxHeight then h else a.maxHeight, n := a.n + 1,
+            kvSize := a.kvSize + (key.length + v.length), gen := a.gen }, ?_,
+    by rw [MemDB.put_new hc r.inv hk]; exact put_new_rep hc r hk v h1 h2 pn2 hpn I, rfl, rfl, I⟩
   simp only [put, g1, Option.bind_some, Option.bind_eq_bind, Bool.false_eq_true, if_false]
   exact e
 
